@@ -170,6 +170,47 @@ def run(res, ctx):
                 want = sum(1 for r in mgr.results if getattr(r, attr) == rank)
                 if tot.get(f"{crit}.{rank}", 0) != want:
                     res.violation("a total count differs from the number of findings of that rank", {"key": f"{crit}.{rank}", "total": tot.get(f"{crit}.{rank}"), "findings": want})
+        # ---- the metrics a REPORT carries: whatever thresholds (-l/-i) or baseline (-b) restrict the listed findings, the counts are those of the findings found
+        #      before filtering, per file and in total (seeded change C12-m8 re-tallied the totals from the filtered list just before the formatter ran)
+        import json as _json
+        repd = os.path.join(scratch.root, "reported"); os.makedirs(repd)
+        rfiles = {"a.py": "import pickle\nassert x\npassword = 'pw'\nimport subprocess\nsubprocess.Popen(cmd, shell=True)\nsubprocess.Popen('ls', shell=True)\n",
+                  "b.py": "exec(c)\nimport hashlib\nhashlib.md5(d)\nq = 'SELECT * FROM t WHERE a = %s' % v\ntry:\n    f()\nexcept Exception:\n    pass\n",
+                  "c.py": "x = 1\n", "d.py": "import telnetlib  # nosec\neval(e)  # nosec B307\nassert y\n"}
+        for nm, body in rfiles.items():
+            with open(os.path.join(repd, nm), "w") as f:
+                f.write(body)
+        r0 = C.run_cli(["-f", "json", "-q", "-r", repd])
+        try:
+            m0 = _json.loads(r0["out"])["metrics"]
+        except Exception:
+            m0 = None
+            res.break_("reported-metrics:reference-run-failed", {"exit": r0["exit"], "exc": r0["exc"], "stderr": r0["err"][-300:]})
+        if m0 is not None:
+            basef = os.path.join(scratch.root, "baseline.json")
+            rb = C.run_cli(["-f", "json", "-q", "-o", basef, os.path.join(repd, "a.py"), os.path.join(repd, "d.py")])
+            variants_ = [(["-l"], "sev>=LOW"), (["-ll"], "sev>=MEDIUM"), (["-lll"], "sev>=HIGH"), (["-i"], "conf>=LOW"), (["-ii"], "conf>=MEDIUM"), (["-iii"], "conf>=HIGH"),
+                         (["-ll", "-ii"], "both MEDIUM"), (["--severity-level", "high", "--confidence-level", "high"], "both HIGH by name"), (["-lll", "-iii", "--exit-zero"], "HIGH exit-zero"),
+                         (["-b", basef], "baseline"), (["-b", basef, "-ll"], "baseline+MEDIUM")]
+            for extra, label in variants_:
+                for fmt in (("json",) if "-b" in extra else ("json", "yaml")):       # a baseline is accepted with the json / html / txt / screen formats only
+                    r = C.run_cli(["-f", fmt, "-q", "-r", repd] + extra)
+                    res.case(("reported-metrics", label, fmt), True)
+                    res.count("reported-metrics:" + fmt)
+                    try:
+                        if fmt == "json":
+                            mm = _json.loads(r["out"])["metrics"]
+                        else:
+                            import yaml as _yaml
+                            mm = _yaml.safe_load(r["out"])["metrics"]
+                    except Exception as e:
+                        res.violation("no parsable report under a threshold / baseline", {"options": extra, "format": fmt, "exit": r["exit"], "exc": r["exc"], "error": str(e)[:200]})
+                        continue
+                    if mm != m0:
+                        diff = {f: {k: [m0.get(f, {}).get(k), mm.get(f, {}).get(k)] for k in set(m0.get(f, {})) | set(mm.get(f, {})) if m0.get(f, {}).get(k) != mm.get(f, {}).get(k)}
+                                for f in set(m0) | set(mm) if m0.get(f) != mm.get(f)}
+                        res.violation("the metrics in the report depend on the thresholds / the baseline: counts must be those of the findings found before filtering",
+                                      {"options": extra, "format": fmt, "files": rfiles, "differences [unfiltered run, this run]": {os.path.basename(k): v for k, v in diff.items()}})
         # ---- totals over files whose DISCOVERED path starts with an underscore / a dot / a digit (relative directory targets are walked as given, so
         #      `bandit -r _vendor app` yields keys such as '_vendor/lib.py' next to the bookkeeping key '_totals': seeded change C12-m3 skipped every key
         #      starting with '_' when adding up)
